@@ -315,7 +315,7 @@ func (g *gen) genField(fieldType types.Type, this string) error {
 		if b, ok := typ.Elem().(*types.Basic); ok {
 			p.P("%s.Fprintf(buf, \"%s = func (v %s) *%s { return &v }(%s)\\n\", %s)", g.fmtPkg(), this, g.TypeString(b), g.TypeString(b), "%#v", "*"+this)
 		} else {
-			p.P("%s.Fprintf(buf, \"%s = %s\\n\", %s)", g.fmtPkg(), this, "%s", g.GetFuncName(typ)+"("+this+")")
+			p.P("%s.Fprintf(buf, \"%s = %s\\n\", %s)", g.fmtPkg(), this, "%s", g.GetFuncName(fieldType)+"("+this+")")
 		}
 		p.Out()
 		p.P("}")
